@@ -16,6 +16,8 @@ var c12Markers = map[string]string{
 	"t.AccessDeniedHTTP": "access",
 	"t.AccessDeniedTCP":  "access",
 	"t.Authorized":       "auth",
+	// a redirect route is answered by fabio itself
+	"http.Redirect": "redirect",
 	// first contact with an upstream
 	"net.DialTimeout": "upstream",
 	"net.Dial":        "upstream",
@@ -156,6 +158,58 @@ func init() {
 		// AccessDeniedTCP decides through AccessDeniedAddr (one decision for TCP connections and gRPC peers)
 		if fd := x.funcDecl("route", "Target", "AccessDeniedTCP"); fd != nil {
 			x.defNat("tcpDelegatesToAddr", uint64(len(x.calls(fd.Body, "t.AccessDeniedAddr"))))
+		}
+		// --- the basic auth scheme holds no state besides the realm and the htpasswd file handle, and its
+		// Authorized only reads the request, sets the challenge header and asks the file
+		basicFields := []string{}
+		for _, f := range x.files("auth") {
+			for _, d := range f.Decls {
+				gd, ok := d.(*ast.GenDecl)
+				if !ok {
+					continue
+				}
+				for _, sp := range gd.Specs {
+					ts, ok := sp.(*ast.TypeSpec)
+					if !ok || ts.Name.Name != "basic" {
+						continue
+					}
+					st, ok := ts.Type.(*ast.StructType)
+					if !ok {
+						x.fail("auth.basic is not a struct")
+						continue
+					}
+					for _, fl := range st.Fields.List {
+						if len(fl.Names) == 0 {
+							basicFields = append(basicFields, "(embedded) "+x.src(fl.Type))
+						}
+						for _, n := range fl.Names {
+							basicFields = append(basicFields, n.Name+" "+x.src(fl.Type))
+						}
+					}
+				}
+			}
+		}
+		x.defStrList("basicFields", basicFields)
+		if fd := x.funcDecl("auth", "basic", "Authorized"); fd != nil {
+			var calls []string
+			writes := 0
+			ast.Inspect(fd.Body, func(n ast.Node) bool {
+				switch v := n.(type) {
+				case *ast.CallExpr:
+					calls = append(calls, x.src(v.Fun))
+				case *ast.AssignStmt:
+					for _, l := range v.Lhs {
+						if _, isIdent := l.(*ast.Ident); !isIdent {
+							writes++ // anything but a local variable
+						}
+					}
+				case *ast.IncDecStmt, *ast.GoStmt, *ast.SendStmt:
+					writes++
+				}
+				return true
+			})
+			x.defStrList("basicAuthorizedCalls", calls)
+			x.defNat("basicAuthorizedWrites", uint64(writes))
 		}
 		// --- tags
 		for _, c := range []string{"ipAllowTag", "ipDenyTag"} {
